@@ -1123,9 +1123,12 @@ impl Family for WhitespaceKinds {
 // ---------------------------------------------------------------------------------------------------------------
 // Cost growth
 
-pub const GROWTH_FAMILIES: [&str; 16] = [
+pub const GROWTH_FAMILIES: [&str; 19] = [
     "layered-dag-width-2", "layered-dag-width-3", "fan-in-dag", "deep-sequence-nesting", "deep-parenthesised-if", "deep-if-nesting", "long-alias-chain", "inheritance-lattice-width-2", "many-fields", "many-definitions", "long-doc-comment", "layered-dag-with-back-edge",
     "deep-dictionary-value-nesting", "alias-tower-of-results", "alias-tower-with-users", "alias-tower-of-dictionaries",
+    // a cycle that has nothing to do with the dense part, met BEFORE it, after it, and in the middle of it: what the
+    // cycle detector remembers (or counts) while it reports the cycle must not change the cost of the rest
+    "self-cycle-then-layered-dag", "layered-dag-then-self-cycle", "enum-cycle-inside-fan-in-dag",
 ];
 
 pub fn growth_instance(fam: usize, size: usize) -> String {
@@ -1224,6 +1227,28 @@ pub fn growth_instance(fam: usize, size: usize) -> String {
                 s.push_str(&format!("struct C{i} {{ a: C{} b: C{}? }}\n", i + 1, i + 1));
             }
             s.push_str(&format!("struct C{size} {{ back: Sequence<C0> }}\n"));
+        }
+        "self-cycle-then-layered-dag" | "layered-dag-then-self-cycle" => {
+            let first = GROWTH_FAMILIES[fam] == "self-cycle-then-layered-dag";
+            if first {
+                s.push_str("struct Loop { next: Loop }\n");
+            }
+            for i in 0..size {
+                s.push_str(&format!("struct S{i} {{ a: S{} b: S{} }}\n", i + 1, i + 1));
+            }
+            s.push_str(&format!("struct S{size} {{}}\n"));
+            if !first {
+                s.push_str("struct Loop { next: Loop }\n");
+            }
+        }
+        "enum-cycle-inside-fan-in-dag" => {
+            for i in 0..size {
+                if i == size / 2 {
+                    s.push_str("enum Ring { A(r: Other?) B }\nstruct Other { back: Sequence<Ring> }\n");
+                }
+                let fields: Vec<String> = (i + 1..size).map(|j| format!("f{j}: F{j}")).collect();
+                s.push_str(&format!("struct F{i} {{ {} }}\n", fields.join(" ")));
+            }
         }
         _ => unreachable!(),
     }
